@@ -90,6 +90,8 @@ type pipe struct {
 	maxFlushDelay   time.Duration
 	lftm            time.Duration // lifetime
 	wrCounter       atomic.Uint64
+	wcnt            uint64 // batches handed to _backgroundWrite (owned by the writer goroutine, read after p.close is closed)
+	rcnt            uint64 // batches fetched with NextResultCh (owned by the _background goroutine)
 	version         int32
 	blcksig         int32
 	state           int32
@@ -435,8 +437,10 @@ func (p *pipe) _background() {
 		p._exit(p._backgroundWrite())
 		close(p.close)
 	}()
+	var rerr error
 	{
-		p._exit(p._backgroundRead())
+		rerr = p._backgroundRead()
+		p._exit(rerr)
 		select {
 		case <-p.close:
 		default:
@@ -481,13 +485,24 @@ func (p *pipe) _background() {
 	}
 
 	resp := NewErrorResult(err)
+	sent := resp // for batches that were already handed to the writer: the server may have executed them
+	if err == errConnExpired && rerr != nil {
+		sent = NewErrorResult(rerr) // only batches that never reached the writer can be retried transparently
+	}
+	closed := false
 	for p.loadWaits() != 0 {
 		select {
 		case <-p.close: // p.queue.NextWriteCmd() can only be called after _backgroundWrite
+			closed = true
 			_, _, _ = p.queue.NextWriteCmd()
 		default:
 		}
 		if _, _, ch, resps = p.queue.NextResultCh(); ch != nil {
+			resp := resp
+			if !closed || p.rcnt < p.wcnt {
+				resp = sent
+			}
+			p.rcnt++
 			for i := range resps {
 				resps[i] = resp
 			}
@@ -539,6 +554,9 @@ func (p *pipe) _backgroundWrite() (err error) {
 		if ch != nil && multi == nil {
 			multi = ones
 		}
+		if ch != nil {
+			p.wcnt++
+		}
 		for _, cmd := range multi {
 			err = writeCmd(p.w, cmd.Commands())
 			if cmd.IsUnsub() { // See https://github.com/redis/rueidis/pull/691
@@ -568,10 +586,9 @@ func (p *pipe) _backgroundRead() (err error) {
 	)
 
 	defer func() {
+		// the in-flight batch has been written: the server may have executed it, so it must not
+		// be reported as errConnExpired, which every client loop re-sends unconditionally
 		resp := NewErrorResult(err)
-		if e := p.Error(); e == errConnExpired {
-			resp = NewErrorResult(e)
-		}
 		if err != nil && ff < len(multi) {
 			for ; ff < len(resps); ff++ {
 				resps[ff] = resp
@@ -620,6 +637,9 @@ func (p *pipe) _backgroundRead() (err error) {
 		if ff == len(multi) {
 			ff = 0
 			ones[0], multi, ch, resps = p.queue.NextResultCh() // ch should not be nil; otherwise, it must be a protocol bug
+			if ch != nil {
+				p.rcnt++
+			}
 			if ch == nil {
 				p.queue.FinishResult()
 				// Redis will send sunsubscribe notification proactively in the event of slot migration.
